@@ -9,6 +9,7 @@ import Emu.Proofs.Gc
 import Emu.Proofs.GcInterleave
 import Emu.Bt.Server
 import Emu.Proofs.Activity
+import Emu.Proofs.LeafTie.ApplyGC
 
 namespace Emu.Props.C16
 open Emu Emu.Bt Emu.Proofs.BtRow Emu.Proofs.BtInv Emu.Proofs.Gc
@@ -168,5 +169,31 @@ theorem recent_request_keeps_the_pass_away (before : List Ev) (e : Ev) (waits : 
 example : (Activity.after [.write, .wait 200000000000, .read, .wait 400000000000]).quiet = true ∧
     (Activity.after [.write, .wait 400000000000, .read, .wait 200000000000]).quiet = false ∧
     (Activity.after [.write, .wait 400000000000, .pass, .wait 400000000000]).quiet = false := by decide
+
+/-! ### Tie T1: the repository's own text of the rule evaluation
+
+`Emu.Generated.Leaf.applyGC` is `applyGC` (bttest/inmem.go) — the type switch over the rule oneof,
+the cut-off arithmetic, the binary search `sort.Search`, the slicing and the loop over a union's
+members — read off the Go text by `factx` on every run.  On every list of cells in descending
+timestamp order (the order the emulator keeps a column in: strictly descending, `Proofs/BtInv`) it
+is the Model's `applyGC`, the function the theorems above are about. -/
+
+theorem source_applyGC_is_the_models (now : Int) (rule : GcRule) (cs : List Cell) (h : StrictDesc cs) :
+    Emu.Generated.Leaf.applyGC cs rule now = applyGC now rule cs :=
+  Emu.Proofs.LeafTie.applyGC_tie now rule cs (Emu.Proofs.LeafTie.Desc.of_strict h)
+
+/-- the standard library's binary search, on a predicate that stays true once it is true, returns the
+    first index where it holds -/
+theorem binary_search_finds_the_first (p : Nat → Bool) (n : Nat)
+    (hmono : ∀ i j, i ≤ j → j < n → p i = true → p j = true) :
+    (∀ i, i < Emu.GoSem.goSearch n p → p i = false) ∧
+    (Emu.GoSem.goSearch n p < n → p (Emu.GoSem.goSearch n p) = true) :=
+  Emu.Proofs.LeafTie.goSearch_first p n hmono
+
+example : Emu.Generated.Leaf.applyGC [⟨30, [1], []⟩, ⟨20, [2], []⟩, ⟨10, [3], []⟩] (.union [.maxAge 0 15000, .maxVersions 1]) 35
+    = [⟨30, [1], []⟩] ∧ StrictDesc [⟨30, [1], []⟩, ⟨20, [2], []⟩, ⟨10, [3], []⟩] := by
+  constructor
+  · decide
+  · simp [StrictDesc]
 
 end Emu.Props.C16
